@@ -114,3 +114,10 @@ check('C11', 'simdist', 'exploration', 'differential oracle over real executions
       'Generated topologies (world <= 8, thorough <= 16), column/row/MLP stages, bias on/off, clipping active or not, bucketed or not, several steps, all scheduler policies: factors on the inverse workers '
       'equal the unsharded layer\'s, every rank holds exactly its shard of the unsharded (clipped) gradient, data-parallel replicas are bitwise equal and replicated biases equal across model-parallel peers.',
       'Megatron parallel layers and the DeepSpeed topology are stand-ins (DESIGN.md 2.4); pipeline stages are independent chains.', 'DESIGN.md §3 C11')
+
+check('C18', 'simdist', 'fault_enumeration', 'fault enumeration over the checkpoint position of sharded GPT-NeoX runs on simulated ranks: saved-state oracle, restore oracle, resumed-vs-uninterrupted differential, collective monitors',
+      'For generated topologies and runs every boundary 1..T is a checkpoint position (in-memory or directory, compute_inverses on/off): every rank\'s saved state (or one file per layer) holds the factors '
+      'of every layer exactly as held by its inverse worker, save and load keep all collectives matched, the gathering ranks get the saved factors and second-order data back, and the resumed gradients equal '
+      'the uninterrupted sharded run whenever the rule of C09 says so.',
+      'Stand-ins as in C11; save and load separated by a harness join; temporary checkpoint directories are removed.', 'DESIGN.md §3 C18')
+NOT_APPLICABLE.clear()
